@@ -325,8 +325,18 @@ func genCase(t *rapid.T) Case {
 		c.Fields = append(c.Fields, pool[rapid.IntRange(0, len(pool)-1).Draw(t, "f")])
 	}
 	if c.Transport != "dtls" && rapid.IntRange(0, 3).Draw(t, "prior") == 0 {
-		for range c.Fields {
-			c.Prior = append(c.Prior, pool[rapid.IntRange(0, len(pool)-1).Draw(t, "pf")])
+		twin := rapid.Bool().Draw(t, "twin")
+		for _, f := range c.Fields {
+			pf := pool[rapid.IntRange(0, len(pool)-1).Draw(t, "pf")]
+			if twin { // where the registry has it: the same element id and length under another enterprise
+				for _, x := range pool {
+					if x.ID == f.ID && x.Len == f.Len && x.Ent != f.Ent {
+						pf = x
+						break
+					}
+				}
+			}
+			c.Prior = append(c.Prior, pf)
 		}
 		c.PriorRec = gen.Record(t, c.Prior, 20)
 	}
